@@ -372,8 +372,10 @@ class Sim:
                 fn()
             except BaseException as e:  # noqa
                 self.errors.append(f'node {i} thread {fn.__name__}: {type(e).__name__}: {e}')
-            if fn.__name__ == 'run':
-                self._process_exit(i)
+            # NB: the sockets a boss process still holds when run() returns would be closed by the OS at process
+            # exit; this is deliberately not simulated: the handlers close every connection themselves, and the
+            # comparison is about what the handlers close (a server that stopped closing its client connections
+            # is reported even though the kernel would eventually close them).
         return run
 
     def _process_exit(self, i):
@@ -691,7 +693,7 @@ def run_schedule(topo, attached, script=None, rng=None, crash_plan=None, max_eve
     cmp_at: list[int] = []      # after how many model events each real observation was taken
     robs: list = [sim.observe()]
     hev: list = []              # harness events actually executed (the replayable script)
-    info = dict(crashes=0, finished=[], emits=0, calls=0, recvs=0, eofs=0, hang=None)
+    info = dict(crashes=0, finished=[], emits=0, calls=0, recvs=0, eofs=0, hang=None, own={})
     lens = lambda: ([len(q) for q in sim.net.up], [len(q) for q in sim.net.down])  # noqa: E731
 
     def ordinary_new(before, consumed=None):
@@ -726,6 +728,10 @@ def run_schedule(topo, attached, script=None, rng=None, crash_plan=None, max_eve
                 q = sim.net.up[c] if up else sim.net.down[c]
                 if not q:
                     info['eofs'] += 1
+                elif up and sim.kind[c] == 'C' and q[0][0] == M.SUBMIT and sim.alive(0):
+                    # the mailbox the server is about to allocate for this client's submission (independent bookkeeping
+                    # for the property oracle: which root tasks belong to which client)
+                    info['own'].setdefault(str(c), []).append(sim.obj[0].mailbox_counter)
                 info['recvs'] += 1
                 sim.recv(up, c, k)
                 mev.append(['recv', h[1], c, k])
@@ -901,11 +907,10 @@ def property_oracle(sim: Sim, info: dict) -> list[dict]:
         if sim.blocked(c) and not left:
             probs.append(dict(symptom='client_blocked_for_ever', client=c))
     # nothing but the complete output of one of its own tasks is returned as a result
-    srv = sim.obj[0]
     for c in range(1, sim.n):
         if sim.kind[c] != 'C':
             continue
-        own_mb = {mb for u, (mb, conn) in srv.tasks.items() if conn is sim.pend[c]}
+        own_mb = set(info['own'].get(str(c), []))
         for o in sim.outcomes[c]:
             if o.startswith('RES_'):
                 try:
@@ -1303,7 +1308,7 @@ def run_scenario(sc: dict) -> dict:
             if at and at != 'before_submit':
                 nflags = k.get('count', 1)
                 t0 = time.time()
-                while time.time() - t0 < 90:
+                while time.time() - t0 < 75:
                     g = flags(d, at + '.*')
                     if k.get('not_root'):
                         rootf = flags(d, 'mark0.*')
@@ -1446,7 +1451,7 @@ def quick_scenarios() -> list[dict]:
         scenario('attached', 'root_sleeping'),
         scenario('attached', 'idle_before_submit'),
         scenario('detached', 'manager_of_root', MANAGER_POINTS, clients=2),
-        scenario('detached', 'sub_result_in_flight'),
+        scenario('detached', 'sub_running'),
         scenario('detached', 'worker_then_manager', MANAGER_POINTS),
         dict(mode='detached', point='nested_top_manager', nested=True, managers=2, workers=1,
              kill=[dict(who='top_manager', at='sub_start')], client='blocked_result', work=dict(n_sub=2, t_sub=3.0, t_sleep=1.0)),
@@ -1525,34 +1530,82 @@ def fault_signature(sc: dict, prob: dict) -> dict:
 # =============================================================================================
 # the check
 # =============================================================================================
-def check_schedule(ctx, topo, attached, script=None, rng=None, crash_plan=None, label='random', max_events=70):
-    """Run one schedule on the implementation and on the model; report disagreements / property failures."""
+def exec_schedule(topo, attached, script=None, rng=None, crash_plan=None, label='random', max_events=70) -> dict:
+    """Run one schedule on the implementation (no ctx: also used inside co-simulation worker processes)."""
     global crash_plan_allows_nested
     crash_plan_allows_nested = label.startswith('nested')
     sim, mev, cmp_at, robs, hev, info = run_schedule(topo, attached, script, rng, crash_plan, max_events)
-    case = dict(topology=[[k, p] for k, p in topo], attached=attached, script=hev)
     nested = any(topo[p][0] == 'M' and k == 'M' for k, p in topo[1:])
-    key = (tuple(map(tuple, topo)), attached, json.dumps(hev))
+    rec = dict(topology=[[k, p] for k, p in topo], attached=attached, hev=hev, label=label, nested=nested,
+               line=model_line(topo, attached, 400, mev), cmp_at=cmp_at, robs=robs, info=info,
+               errors=list(sim.errors), oracle=[] if info['hang'] else property_oracle(sim, info))
+    rec['_sim'] = sim
+    return rec
+
+
+def account(ctx, rec) -> None:
+    """Book one executed schedule: counts, implementation-side failures, and queue it for the model comparison."""
+    rec.pop('_sim', None)
+    info, hev, nested = rec['info'], rec['hev'], rec['nested']
+    case = dict(topology=rec['topology'], attached=rec['attached'], script=hev)
+    key = (json.dumps(rec['topology']), rec['attached'], json.dumps(hev))
     ctx.case(key, nontrivial=info['crashes'] > 0 and info['recvs'] > 0)
-    ctx.count('schedules_' + label)
+    ctx.count('schedules_' + rec['label'])
     ctx.count('events', len(hev))
     ctx.count('crash_events', info['crashes'])
     ctx.count('eof_events', info['eofs'])
     ctx.count('client_calls', info['calls'])
+    ctx.count('topology_' + ('attached' if rec['attached'] else 'nested' if nested else 'detached'))
     if info['hang']:
         ctx.violation(dict(leg='cosim', symptom='handler_hang'), case, 'every handler returns to its select()/recv()', info['hang'],
                       'a real handler thread did not come back within %.0fs' % SETTLE_TIMEOUT, kind='schedule')
-        return sim, info
-    if sim.errors:
-        ctx.violation(dict(leg='cosim', symptom='thread_exception'), case, 'no exception escapes run()/send_outgoing', sim.errors[:3],
+        return
+    if rec['errors']:
+        ctx.violation(dict(leg='cosim', symptom='thread_exception'), case, 'no exception escapes run()/send_outgoing', rec['errors'][:3],
                       'an exception escaped a runtime thread', kind='schedule')
-    line = model_line(topo, attached, 400, mev)
-    PENDING.append(dict(line=line, case=case, nested=nested, cmp_at=cmp_at, robs=robs, hev=hev, info=info))
-    for pr in property_oracle(sim, info):
+    PENDING.append(dict(line=rec['line'], case=case, nested=nested, cmp_at=rec['cmp_at'], robs=rec['robs'], hev=hev, info=info))
+    for pr in rec['oracle']:
         sig = dict(leg='cosim', symptom=pr['symptom'], topology='nested' if nested else 'flat')
         ctx.violation(sig, case, 'after a crash: whole runtime down, every client connection closed, every call returned, '
                       'results complete', pr, 'property oracle on the implementation: ' + pr['symptom'], kind='schedule')
-    return sim, info
+
+
+def check_schedule(ctx, topo, attached, script=None, rng=None, crash_plan=None, label='random', max_events=70):
+    rec = exec_schedule(topo, attached, script, rng, crash_plan, label, max_events)
+    sim = rec['_sim']
+    account(ctx, rec)
+    return sim, rec['info']
+
+
+def cosim_worker(seed: int, n: int, budget_s: float) -> None:
+    """Child process: n random schedules, one JSON record per line on stdout."""
+    import random
+    rng = random.Random(seed)
+    t0 = time.time()
+    for i in range(n):
+        if time.time() - t0 > budget_s:
+            break
+        nested = rng.random() < 0.06
+        topo, att = random_topology(rng, nested)
+        r = rng.random()
+        plan = []
+        if r < 0.9:
+            plan.append((rng.randint(2, 30), 'W' if (att or rng.random() < 0.6) else 'M'))
+        if r < 0.35:
+            plan.append((plan[0][0] + rng.randint(0, 6), rng.choice(['W', 'M']) if not att else 'W'))
+        try:
+            rec = exec_schedule(topo, att, rng=rng, crash_plan=plan, label='nested_random' if nested else 'random')
+            rec.pop('_sim', None)
+        except Exception:
+            rec = dict(machinery_error=traceback.format_exc()[-1500:])
+        print('C14REC ' + json.dumps(rec, default=str))
+        sys.stdout.flush()
+
+
+def launch_cosim(seed: int, n: int, budget_s: float):
+    env = dict(os.environ)
+    return subprocess.Popen([sys.executable, os.path.abspath(__file__), 'cosim', str(seed), str(n), str(budget_s)],
+                            stdout=subprocess.PIPE, stderr=subprocess.DEVNULL, text=True, env=env, start_new_session=True)
 
 
 PENDING: list = []
@@ -1700,23 +1753,30 @@ def run(ctx):
     for label, topo, att, script in directed_cases():
         sim, info = check_schedule(ctx, topo, att, script=script, label='nested_directed' if label == 'nested_witness' else 'directed')
         ctx.sample(dict(leg='cosim', label=label, topology=[[k, p] for k, p in topo], attached=att, script=script), limit=3)
-    rng = ctx.rng
-    nsched = ctx.n(260, 2500)
-    budget_s = ctx.n(75, 600)
+    nproc = ctx.n(6, 10)
+    per = ctx.n(40, 260)
+    budget_s = ctx.n(55, 600)
+    procs = [launch_cosim(ctx.seed * 1000 + w, per, budget_s) for w in range(nproc)]
     done = 0
-    for i in range(nsched):
-        if time.time() - t0 > budget_s:
-            break
-        nested = rng.random() < 0.06
-        topo, att = random_topology(rng, nested)
-        r = rng.random()
-        plan = []
-        if r < 0.9:
-            plan.append((rng.randint(2, 30), 'W' if (att or rng.random() < 0.6) else 'M'))
-        if r < 0.35:
-            plan.append((plan[0][0] + rng.randint(0, 6), rng.choice(['W', 'M']) if not att else 'W'))
-        check_schedule(ctx, topo, att, rng=rng, crash_plan=plan, label='nested_random' if nested else 'random')
-        done += 1
+    for pw in procs:
+        try:
+            out, _ = pw.communicate(timeout=budget_s + 240)
+        except subprocess.TimeoutExpired:
+            try:
+                os.killpg(pw.pid, signal.SIGKILL)
+            except OSError:
+                pass
+            out, _ = pw.communicate()
+            ctx.broken_obligation('co-simulation worker exceeded its time limit', '')
+        for ln in out.splitlines():
+            if not ln.startswith('C14REC '):
+                continue
+            rec = json.loads(ln[7:])
+            if 'machinery_error' in rec:
+                ctx.broken_obligation('co-simulation machinery raised', rec['machinery_error'])
+                continue
+            account(ctx, rec)
+            done += 1
     compare_pending(ctx)
     ctx.cov['cosim_random_schedules'] = done
     ctx.cov['cosim_wall_s'] = round(time.time() - t0, 1)
@@ -1805,6 +1865,10 @@ def replay(ctx, data):
 
 
 if __name__ == '__main__':
+    sys.path.insert(0, HARNESS)
+    if len(sys.argv) >= 5 and sys.argv[1] == 'cosim':
+        cosim_worker(int(sys.argv[2]), int(sys.argv[3]), float(sys.argv[4]))
+        os._exit(0)
     if len(sys.argv) >= 3 and sys.argv[1] == 'fault':
         sc = json.loads(sys.argv[2])
         res = run_scenario(sc)
